@@ -46,8 +46,23 @@ Judge(r) ==
   ELSE IF \E i \in 1..Len(r.sites) : o.pos[i + 1][1] # PosOf(r, r.sites[i][1]).row THEN "callsites-rows"
   ELSE "ok"
 
+\* Second kind of record: ONE program whose fault can only be noticed at the end of the input (a block that is never
+\* closed), written with each line-end convention (with / without a line end after the last line).  Where exactly
+\* such a diagnostic points is not fixed; what is: it is a static error with one position, that position is the same
+\* whatever the line-end convention, and its row exists in the text.
+\*   [id, kind |-> "eof", rts |-> <<rt...>>, lens |-> <<len...>>, obs |-> <<[stage, fam, pos]...>>]
+JudgeEof(r) ==
+  LET n == Len(r.rts) IN
+  IF \E k \in 1..n : LenR(r.rts[k]) # r.lens[k] THEN "SPECBUG lens"
+  ELSE IF \E k \in 1..n : r.obs[k].stage \notin {"parse", "lint"} THEN "stage"
+  ELSE IF \E k \in 1..n : Len(r.obs[k].pos) # 1 THEN "noposition"
+  ELSE IF \E k \in 1..n : r.obs[k].pos[1] # r.obs[1].pos[1] THEN "position-depends-on-line-ends"
+  ELSE IF \E k \in 1..n : r.obs[k].fam # r.obs[1].fam THEN "family-depends-on-line-ends"
+  ELSE IF \E k \in 1..n : r.obs[k].pos[1][1] < 1 \/ r.obs[k].pos[1][1] > AfterR(r.rts[k], r.lens[k] - 1).row THEN "row-outside-text"
+  ELSE "ok"
+
 Verdict ==
   LET r == Recs[idx]
-      j == Judge(r)
+      j == IF "kind" \in DOMAIN r /\ r.kind = "eof" THEN JudgeEof(r) ELSE Judge(r)
   IN PrintT((IF j = "ok" THEN "AGREE " ELSE "MISMATCH ") \o ToString(r.id) \o " " \o j)
 =============================================================================
